@@ -41,6 +41,27 @@ and `obsQueue.Offer` counts every error of `Offer` — so the items of a request
 def enqFailedWfrOf (s : State) : Nat :=
   if s.cfg.wfr then ((s.results.filter (·.2)).map (·.1.length)).sum else 0
 
+/-! ## the exporter with its `obsQueue` front (see `Lemmas/C19Exp.lean`) -/
+
+structure XState where
+  s : State
+  given : Nat := 0      -- items of every request handed to `Send`
+  refused : Nat := 0    -- items of the requests whose `Offer` returned an error without enqueuing
+
+inductive XLabel
+  | lts (l : Label)          -- a step of the shutdown LTS; `lts (.offer b)` = an accepted `Send`
+  | refuse (b : Batch)       -- a refused `Send`
+
+def xfire (x : XState) : XLabel → Option XState
+  | .lts l =>
+    match fire x.s l with
+    | some s' => some { x with s := s', given := match l with | .offer b => x.given + b.length | _ => x.given }
+    | none => none
+  | .refuse b => some { x with given := x.given + b.length, refused := x.refused + b.length }
+
+/-- `exporter_enqueue_failed_*` of an exporter with a sending queue: the refused offers plus the `wait_for_result` errors -/
+def enqFailedOf (x : XState) : Nat := x.refused + enqFailedWfrOf x.s
+
 /-! ## counters predicted from a recorded trace -/
 
 structure XC where
@@ -63,13 +84,22 @@ def callsOf (t : List XEv) : List (Nat × List Item) :=
 def outcomeOf (t : List XEv) (c : Nat) : Option Bool :=
   t.findSome? (fun e => match e with | .ee c' f => if c' = c then some f else none | _ => none)
 
-/-- a call is the last one of its flight iff no later call carries the same items -/
-def lastCalls : List (Nat × List Item) → List (Nat × List Item)
-  | [] => []
-  | (c, is) :: rest => if rest.any (fun p => p.2 == is) then lastCalls rest else (c, is) :: lastCalls rest
+/-- the flight (chain of attempts through one pass of `obsReportSender`) a call belongs to = the first call that contained its
+items: a retry carries the same items or — after a partial failure, `Request.OnError` — a sub-list of them; item ids are unique -/
+def rootOf (calls : List (Nat × List Item)) (c : Nat × List Item) : Nat :=
+  match c.2 with
+  | [] => c.1
+  | x :: _ => ((calls.find? (fun p => p.2.contains x)).map (·.1)).getD c.1
 
+/-- `items` is read BEFORE the first attempt (`obsReportSender.Send`): a flight counts the items of its FIRST call, under the
+outcome of its LAST call -/
 def predict (t : List XEv) : XC :=
-  let finals := (lastCalls (callsOf t)).filterMap (fun p => (outcomeOf t p.1).map (fun f => (p.2.length, f)))
+  let calls := callsOf t
+  let roots := calls.filter (fun p => rootOf calls p == p.1)
+  let finals := roots.filterMap (fun r =>
+    match (calls.filter (fun p => rootOf calls p == r.1)).getLast? with
+    | some l => (outcomeOf t l.1).map (fun f => (r.2.length, f))
+    | none => none)
   { sent := ((finals.filter (fun p => !p.2)).map (·.1)).sum
     failed := ((finals.filter (fun p => p.2)).map (·.1)).sum
     enqFailed := (t.map (fun e => match e with | .rej is => is.length | _ => 0)).sum }
